@@ -1,8 +1,9 @@
 package main
 
 import (
-	"runtime"
 	"bufio"
+	"bytes"
+	"runtime"
 	"crypto/sha1"
 	"encoding/hex"
 	"encoding/json"
@@ -81,6 +82,37 @@ func (w *Writer) crash(seg []Ev, text string) {
 	w.ncrash++
 }
 
+// noNulls re-encodes a JSON document with every null replaced by an empty list.
+func noNulls(b []byte) []byte {
+	var v any
+	dec := json.NewDecoder(bytes.NewReader(b))
+	dec.UseNumber()
+	if err := dec.Decode(&v); err != nil {
+		return b
+	}
+	var fix func(x any) any
+	fix = func(x any) any {
+		switch t := x.(type) {
+		case nil:
+			return []any{}
+		case map[string]any:
+			for k, e := range t {
+				t[k] = fix(e)
+			}
+		case []any:
+			for i, e := range t {
+				t[i] = fix(e)
+			}
+		}
+		return x
+	}
+	out, err := json.Marshal(fix(v))
+	if err != nil {
+		return b
+	}
+	return out
+}
+
 const chunkLines = 30000
 
 // Writer writes segments into chunked NDJSON files and meta.json.
@@ -143,6 +175,9 @@ func (w *Writer) Put(seg []Ev) {
 		b, err := json.Marshal(e)
 		if err != nil {
 			panic(err)
+		}
+		if bytes.Contains(b, []byte("null")) {
+			b = noNulls(b) // the Json module of TLC has no null: nil slices are written as empty lists
 		}
 		w.bw.Write(b)
 		w.bw.WriteByte('\n')
